@@ -64,7 +64,7 @@ theorem PrivInv.worker {s s' : State} {l : Label} (h : PrivInv s) (hl : l.worker
       · rw [x] at hpc; cases hpc
       · rw [x] at hpc; injection hpc with e1 _
         rw [← e1]
-        exact ⟨Nat.le_min.mpr ⟨hp.1, Nat.le_add_right _ _⟩, Nat.min_le_left _ _⟩
+        exact ⟨hp.1, Nat.le_refl _⟩
     · cases hs
   case wDecode i a b v =>
     split at hs
